@@ -53,17 +53,26 @@ def installed(rng):
             setattr(random, k, v)
 
 
-def dfs(scenario, palette=PALETTE_SMALL, max_paths=None):
+def dfs(scenario, palette=PALETTE_SMALL, max_paths=None, max_seconds=40.0):
     """Enumerate every outcome of the scripted draws consumed by scenario().
     scenario(rng) is executed once per path with the global generator replaced.
     Yields (script, result).  Stops after max_paths (returns exhausted flag via StopIteration)."""
+    import time as _time
     stack = [[]]
     paths = 0
+    t_end = _time.time() + max_seconds
     while stack:
+        if paths % 256 == 255 and _time.time() > t_end:      # wall-clock cap of one enumeration (draw trees can be huge or infinite)
+            yield None, "TRUNCATED", None
+            return
         script = stack.pop()
         rng = Scripted(script, palette)
         with installed(rng):
-            result = scenario(rng)
+            try:
+                result = scenario(rng)
+            except RecursionError:
+                yield None, "TRUNCATED", None      # an implementation that retries by calling itself, steered into its retry branch for ever
+                return
         paths += 1
         yield list(rng.script), result, rng
         base = len(script)
